@@ -226,6 +226,17 @@ def ch3_drop_accounting(ctx, rep, arms=("BlockOnFull", "DropOldest", "DropLatest
     R = "CH3"
     A = ctx.A
     b = A.send_wrapper
+    # the dropped counter is fed by the drop arms of the send wrapper and by nothing else (a
+    # `Drop` impl that "accounts for" what is still queued counts actions the consumer goes on to
+    # take)
+    others = []
+    for s_ in ctx.prog.sites():
+        if A.metric_call(s_) == "action_dropped":
+            root = ctx.helper_root(s_.body)
+            if s_.body.path != b.path and root.path != b.path and not s_.body.path.startswith(b.path):
+                others.append(s_)
+    rep.check(not others, R, "dropped-counted-only-by-the-send-wrapper", others[0].where if others else ctx.where(b), "action_dropped is only called from %s" % short(b.path),
+              "action_dropped is also called from %s: an action can be counted as dropped and still be taken by the reducer" % sorted({short(x.body.path) for x in others}))
     pe, feas, rfail = feasible_paths(ctx)
     n = 0
     for p in feas:
@@ -465,3 +476,31 @@ def dr1_result_mapping(ctx, rep):
         rep.check(ret[0] == "agg" and ret[1].endswith(want), R, "result-maps-%s:%s" % (o.lstrip("*"), short(b.path)), ctx.where(b, enq[-1].bb),
                   "enqueue %s => returns %s" % (o, want), "enqueue %s but returns %s" % (o, term_str(ret)))
     rep.floor(R, "enqueue paths", n, 2)
+
+
+def ch7_default_policy_is_blocking(ctx, rep):
+    """`BackpressurePolicy::default()` is `BlockOnFull`: every constructor and builder that is
+    not given a policy builds a lossless store (C05's "default blocking policy"), and the
+    policy enum has exactly the three documented kinds"""
+    R = "CH7"
+    A = ctx.A
+    pol = None
+    for a in ctx.prog.facts.adts.values():
+        if a.get("kind") == "Enum" and a["path"].split("::")[-1] == "BackpressurePolicy":
+            pol = a
+    if pol is None:
+        rep.anchor_missing(R, "policy enum")
+        return
+    names = sorted(v["name"] for v in pol["variants"])
+    rep.check(names == ["BlockOnFull", "DropLatest", "DropOldest"], R, "policy-kinds", "%s:%d" % (pol["loc"]["file"], pol["loc"]["line"]), "policies are BlockOnFull | DropOldest | DropLatest", "policy kinds are %s" % names)
+    dflt = [b for b in ctx.prog.bodies if (b.j.get("impl_adt") or "") == pol["path"] and (b.j.get("impl_trait") or "").endswith("default::Default") and b.j.get("name") == "default"]
+    if not rep.exact(R, "Default impls of the policy enum", len(dflt), 1):
+        return
+    b = dflt[0]
+    rep.note_fn(b.path)
+    cfg = ctx.prog.cfg(b)
+    vals = set()
+    for e in cfg.exits:
+        rt = strip_wrap(ctx.prog.bp(b).local_term(0, e, "term"))
+        vals.add(ctx.enum_variant(rt) or term_str(rt))
+    rep.check(vals == {pol["path"] + "::BlockOnFull"}, R, "default-policy-is-BlockOnFull", ctx.where(b), "BackpressurePolicy::default() = BlockOnFull", "BackpressurePolicy::default() = %s: stores built without an explicit policy discard actions" % sorted(vals))
